@@ -28,7 +28,7 @@ func init() {
 			return 1200
 		},
 		Batch: func(t string) int { return 24 },
-		Floors: []string{"library_checks", "spec_sbbf_checks", "mode_write_small_pages", "mode_write_rowgroup_buffer", "mode_dictionary", "mode_copy_same_config", "mode_reencode_other_codec", "mode_merge_pack", "mode_source_without_filter", "mode_pending_then_rowgroup",
+		Floors: []string{"library_checks", "spec_sbbf_checks", "mode_write_small_pages", "mode_write_rowgroup_buffer", "mode_dictionary", "dictionary_fallback_configs", "mode_copy_same_config", "mode_reencode_other_codec", "mode_merge_pack", "mode_source_without_filter", "mode_pending_then_rowgroup",
 			"kind_BOOLEAN", "kind_INT32", "kind_INT64", "kind_INT96", "kind_FLOAT", "kind_DOUBLE", "kind_BYTE_ARRAY", "kind_FIXED_LEN_BYTE_ARRAY", "deferred_filters", "compressed_filters", "multi_rowgroup_files"},
 		Rule: "case = (production mode among 8: small pages / WriteRowGroup from buffer / dictionary columns / verbatim copy / re-encode / merged pack path / source without filters / pending rows then row group; " +
 			"bits-per-value from {1,8,10,64}; deferred and gzip-compressed filters; row-group splits). Ground truth = the non-null values independently decoded from each column chunk; every distinct value is probed through " +
@@ -120,14 +120,26 @@ func runC07(c *Ctx) {
 				return
 			}
 			var out bytes.Buffer
-			w := te.ops.NewWriter(&out, withFilters()...)
+			extra := []parquet.WriterOption{}
+			if r.P(40) {
+				// the filter is pre-sized from the buffer; a dictionary column may then fall back to PLAIN page by page
+				extra = append(extra, parquet.DefaultEncoding(&parquet.RLEDictionary), parquet.DictionaryMaxBytes(gen.Pick(r, []int64{64, 256})), parquet.PageBufferSize(gen.Pick(r, []int{64, 512})))
+				c.Obs("dictionary_fallback_configs", 1)
+			}
+			w := te.ops.NewWriter(&out, withFilters(extra...)...)
 			if _, err = w.WriteRowGroup(b); err != nil {
 				return
 			}
 			err = w.Close()
 			data = out.Bytes()
 		case 2:
-			data, err = writeFile(rows, withFilters(parquet.DefaultEncoding(&parquet.RLEDictionary), parquet.DictionaryMaxBytes(gen.Pick(r, []int64{0, 64, 100000}))))
+			dopts := []parquet.WriterOption{parquet.DefaultEncoding(&parquet.RLEDictionary), parquet.DictionaryMaxBytes(gen.Pick(r, []int64{0, 64, 256, 100000}))}
+			if r.P(70) {
+				// several pages per chunk: with a small dictionary limit the column falls back to PLAIN after the first ones
+				dopts = append(dopts, parquet.PageBufferSize(gen.Pick(r, []int{64, 512, 4096})))
+				c.Obs("dictionary_fallback_configs", 1)
+			}
+			data, err = writeFile(rows, withFilters(dopts...))
 		case 3, 4, 6:
 			srcOpts := withFilters()
 			if mode == 6 {
